@@ -82,8 +82,10 @@ class C13(F.Check):
         "list-initialisation, defect D6): those kernels are dropped by the domain-drop pass and counted, not claimed; "
         "their declared result type Quantity<U,R> also differs from the raw operator's int (recorded, not claimed)",
         "integer `scalar / quantity` is rejected by a static_assert by design (outside the domain; probed and counted)",
-        "QuantityPoint same-unit ops that build the point from a promoted Quantity<U,int> do not compile for sub-int reps "
-        "(outside the domain; counted)",
+        "the framework lowers with -Wno-everything, which would silence clang's default-error narrowing diagnostic; this "
+        "module restores clang's default with `#pragma clang diagnostic error \"-Wc++11-narrowing\"` ahead of the Au headers",
+        "QuantityPoint same-unit ops on sub-int reps convert the promoted Quantity<U,int> back to Quantity<U,R> implicitly "
+        "(static_cast inside the library); their reference is the raw operator's result cast to R",
         "QuantityPoint values are read with data_in(unit) (direct member access); QuantityPoint::in(unit) adds the zero "
         "origin displacement (x + 0) and is compared with the raw expression `x + R{0}`, not with x",
         "g++ and the -std=c++17/20 axes are outside (C20 covers the clang -std axis); g++ is only used for native "
@@ -110,6 +112,9 @@ class C13(F.Check):
         self.closed = []     # (obname, kernel, expected, key)   expected: True or ("zero", ct)
         self.facts = []      # (label, kernel, key)  recorded, not claimed
         self.expected_drop = {}   # kernel name -> reason label
+        self.raws = []       # (family, rep, kernel, ret, args) same-type reference kernels, checked against exact integer oracles
+        # clang's default: non-constant narrowing in list-initialisation is an error (the framework's -Wno-everything hides it)
+        self.includes = '#pragma clang diagnostic error "-Wc++11-narrowing"\n' + F.std_includes()
         self.prelude = "\n".join("using C13_%s = %s;" % (t, u) for t, u in self.units()) + "\n"
         raw_seen = {}
 
@@ -121,6 +126,8 @@ class C13(F.Check):
             name = "c13_raw_%s_%s%s" % (fam, rtag(ct), sfx)
             if name not in raw_seen:
                 raw_seen[name] = add(F.Kernel(name, ret, args, body, key={"rep": ct, "op": fam}, family="raw_" + fam))
+                if not sfx:
+                    self.raws.append((fam, ct, name, ret, args))
             return name
 
         def pair(fam, ct, ut, ret, args, au_body, raw_body, rawfam=None, sfx="", witness=False, expect=None, s=None):
@@ -184,7 +191,7 @@ class C13(F.Check):
                 for cn, op in CMPS:
                     pair(cn, ct, ut, "bool", xy, "return %s %s %s;" % (q("x"), op, q("y")), "return x %s y;" % op)
                 # --- QuantityPoint same-unit operators (values read through data_in: direct member access)
-                psub = "subint_point_from_promoted" if sub else None
+                psub = None
                 pair("pt_sub", ct, ut, ct, xy, "return (%s - %s).in(%s{});" % (p("x"), p("y"), U),
                      "return static_cast<%s>(x - y);" % ct, rawfam="sub_r", witness=isint, expect=psub)
                 pair("pt_add_q", ct, ut, ct, xy, "return (%s + %s).data_in(%s{});" % (p("x"), q("y"), U),
@@ -200,7 +207,7 @@ class C13(F.Check):
                 for cn, op in CMPS:
                     pair("pt_" + cn, ct, ut, "bool", xy, "return %s %s %s;" % (p("x"), op, p("y")), "return x %s y;" % op, rawfam=cn)
                 # point read-out through in(): x + (zero origin displacement)
-                pair("pt_in", ct, ut, ct, x1, "return %s.in(%s{});" % (p("x"), U), "return static_cast<%s>(x + %s{0});" % (ct, ct),
+                pair("pt_in", ct, ut, ct, x1, "return %s.in(%s{});" % (p("x"), U), "return static_cast<%s>(x + static_cast<%s>(0));" % (ct, ct),
                      rawfam="plus_zero")
                 # --- closed facts
                 dq, dr = "std::declval<%s>()" % Q, "std::declval<%s>()" % ct
@@ -299,10 +306,11 @@ class C13(F.Check):
             obs.append(F.Ob(obname, vars_, fn, routes=F.FP_ROUTES if fp else F.CMP_ROUTES, key=key, kernels=[au, rw],
                             note="au operator == raw operator on bare rep: same trap condition, same result bits when no trap"))
             if witness:
-                def wfn(K, *vs, au=au):
-                    return T.TRUE, T.not_(K[au](*vs).ub)
-                obs.append(F.Ob("witness:" + obname, vars_, wfn, expect="sat", routes=F.CMP_ROUTES, key=key, kernels=[au],
-                                note="some operand pair does not trap (the equivalence is not vacuous)"))
+                def wfn(K, au=au, args=args):
+                    cs = [T.const_bv(3 - i, F.CTYPES[t][1]) for i, (t, _) in enumerate(args)]
+                    return T.TRUE, T.not_(K[au](*cs).ub)
+                obs.append(F.Ob("witness:" + obname, [], wfn, expect="sat", routes=F.CMP_ROUTES, key=key, kernels=[au],
+                                note="the operand tuple (3, 2) does not trap in the encoding (the equivalence is not vacuous)"))
         for obname, name, ct, key in self.rts:
             if name not in K:
                 continue
@@ -336,6 +344,7 @@ class C13(F.Check):
                 return T.TRUE, T.and_(T.eq(e.ret, T.const_bv(0, w)), T.not_(e.ub))
             obs.append(F.Ob(obname, [], cfn, kind="closed", key=key, kernels=[name],
                             note="compile-time fact observed as the kernel's constant result"))
+        obs += self.reference_obligations(K)
         # recorded, unclaimed facts (D6: declared result type of unary +/-/% on sub-int reps)
         d6_types = {}
         for fam, name, key in self.facts:
@@ -358,9 +367,6 @@ class C13(F.Check):
         if drops.get("D6"):
             self.notes.append("D6: %d kernels (unary +, unary -, same-unit %% on int8/uint8/int16/uint16 reps) do not compile under "
                               "clang 14: narrowing list-initialisation `return {-value_};` (g++ accepts with a warning)" % drops["D6"])
-        if drops.get("subint_point_from_promoted"):
-            self.notes.append("%d QuantityPoint kernels on sub-int reps (p - p, p + q, q + p, p - q) do not compile: the promoted "
-                              "Quantity<U,int> is not implicitly convertible to Quantity<U,R>" % drops["subint_point_from_promoted"])
         if drops.get("integer_scalar_over_quantity"):
             self.notes.append("%d integer `scalar / quantity` kernels rejected by static_assert (integer division forbidden), by design"
                               % drops["integer_scalar_over_quantity"])
@@ -368,6 +374,74 @@ class C13(F.Check):
             self.notes.append("unexpected drop: " + u)
         if unexpected:
             self.inconclusive.append("%d kernels that the module expects to compile were dropped, e.g. %s" % (len(unexpected), unexpected[0]))
+        return obs
+
+    # ---- the raw reference kernels mean what the C++ arithmetic rules say (exact integer oracle; integral reps)
+    def reference_obligations(self, K):
+        obs = []
+        cmpf = {"eq": lambda a, b: T.eq(a, b), "ne": lambda a, b: T.ne(a, b), "lt": T.ilt, "le": T.ile, "gt": T.igt, "ge": T.ige}
+        arith = {"add": "add", "sub": "sub", "mul": "mul", "div": "div", "mod": "mod", "add_r": "add", "sub_r": "sub",
+                 "addeq": "add", "subeq": "sub", "muleq": "mul", "diveq": "div", "neg": "neg", "pos": "pos", "plus_zero": "pos"}
+        for fam, ct, name, ret, args in self.raws:
+            if name not in K or K[name].kernel.dropped or F.ct_is_float(ct):
+                continue
+            if fam not in cmpf and fam not in arith:
+                continue
+            op = arith.get(fam)
+            w = F.CTYPES[ct][1]
+            if op in ("mul", "div", "mod") and w > 16:
+                continue       # symbolic x symbolic at 32/64 bit: both sides are structurally identical anyway; no oracle claimed
+            P = F.promoted(ct)
+            plo, phi = F.ct_range(P)
+            psigned = F.ct_signed(P)
+
+            def fn(K, *vs, fam=fam, ct=ct, name=name, ret=ret, op=op, P=P, plo=plo, phi=phi, psigned=psigned):
+                r = K[name](*vs)
+                X = F.ival(ct, vs[0])
+                Y = F.ival(ct, vs[1]) if len(vs) > 1 else None
+                if fam in cmpf:
+                    return T.TRUE, T.and_(T.not_(r.ub), T.eq(r.ret, cmpf[fam](X, Y)))
+                ub = T.FALSE
+                if op == "add":
+                    exact = T.iadd(X, Y)
+                elif op == "sub":
+                    exact = T.isub(X, Y)
+                elif op == "mul":
+                    exact = T.imul(X, Y)
+                elif op == "neg":
+                    exact = T.ineg(X)
+                elif op == "pos":
+                    exact = X
+                else:
+                    zero = T.eq(Y, T.const_int(0))
+                    Ys = T.ite(zero, T.const_int(1), Y)
+                    q = T.itrunc_div(X, Ys)
+                    neg = T.ilt(X, T.const_int(0))      # remainder takes the sign of the dividend; SMT mod is non-negative
+                    rem = T.ite(neg, T.ineg(T.imod(T.ineg(X), Ys)), T.imod(X, Ys))
+                    exact = q if op == "div" else rem
+                    ub = zero
+                    if psigned and P == ct:
+                        ub = T.or_(zero, T.and_(T.eq(X, T.const_int(plo)), T.eq(Y, T.const_int(-1))))
+                # the operator computes in the promoted type P: signed overflow is UB, unsigned wraps
+                pw = F.CTYPES[P][1]
+                if psigned:
+                    ub = T.or_(ub, T.not_(T.in_range(exact, plo, phi)))
+                    inP = exact
+                else:
+                    inP = T.imod(exact, T.const_int(1 << pw))
+                # result as returned: ret is P (value operators) or the rep itself (compound assignment / cast: modular)
+                rw = F.CTYPES[ret][1]
+                if ret == P:
+                    expect = inP
+                elif F.ct_signed(ret):
+                    expect = T.isub(T.imod(T.iadd(inP, T.const_int(1 << (rw - 1))), T.const_int(1 << rw)), T.const_int(1 << (rw - 1)))
+                else:
+                    expect = T.imod(inP, T.const_int(1 << rw))
+                return T.TRUE, T.and_(T.eq(r.ub, ub), T.or_(ub, T.eq(F.ival(ret, r.ret), expect)))
+            obs.append(F.Ob("ref_%s:%s" % (fam, rtag(ct)), [(n, F.ct_sort(t)) for t, n in args], fn,
+                            routes=F.CMP_ROUTES if fam in cmpf else F.INT_ROUTES, key={"rep": ct, "op": fam}, kernels=[name],
+                            note="raw reference kernel == exact integer semantics of the C++ operator (promotion, UB on signed overflow "
+                                 "/ division by zero / min/-1, modular conversion back to the rep)"))
         return obs
 
     def known_predicates(self):
